@@ -171,7 +171,8 @@ def build(desc):
              "lextra": [(id, bytes)], "cextra": [(id, bytes)], "z64_last": bool (ZIP64 record after the
              other extras), "fcomment": bytes, "system": int, "vmade": int, "eattr": int, "date": int,
              "time": int, "enc": None | ("zc", pw) | ("aes", version, strength, pw), "crc": override, "lextra_tail": bytes,
-             "lname": bytes (local name override), "flags_extra": int}"""
+             "lname": bytes (local name override), "flags_extra": int,
+             "lz64_last": bool (position of the LOCAL ZIP64 record; default: as z64_last)}"""
     out = bytearray(desc.get("prefix", b""))
     base = len(out)           # offsets are relative to the start of the archive proper
     ents = desc["entries"]
@@ -214,7 +215,7 @@ def build(desc):
         lextra = list(e.get("lextra", [])) + aes_extra
         if lz64:
             z = (1, struct.pack("<QQ", 0 if dd else usize, 0 if dd else csize))
-            lextra = lextra + [z] if e.get("z64_last") else [z] + lextra
+            lextra = lextra + [z] if e.get("lz64_last", e.get("z64_last")) else [z] + lextra
         lx = tlv(lextra) + e.get("lextra_tail", b"")      # (1-3 bytes that form no complete record: padding some tools emit)
         if dd:
             lcrc, lcs, lus = 0, 0, 0
